@@ -219,7 +219,7 @@ def run_direct(name, ops):
                 m.slots[op[1] if op[1] is not None else 16] = (norm(vals[op[2]]),)
             elif op[0] == "r":
                 obj.WriteProperty("presentValue", (), priority=op[1])
-                m.slots[op[1]] = None
+                m.slots[op[1] if op[1] is not None else 16] = None
             elif op[0] == "bad":
                 try:
                     obj.WriteProperty("presentValue", to_lib(dt, vals[op[2]]) if op[2] is not None else (), priority=op[1])
@@ -339,10 +339,10 @@ def run_wire(name, ops):
                     return [("cmd:%s:wire:write-not-acked" % kind, "%s history %r: WriteProperty answered %r" % (name, ops[:i + 1], r))]
                 m.slots[op[1] if op[1] is not None else 16] = (norm(vals[op[2]]),)
             elif op[0] == "r":
-                r = wp((), op[1])
+                r = wp((), op[1])         # (priority None: a Null without a priority field relinquishes the default priority, 16)
                 if not isinstance(r, A.SimpleAckPDU):
                     return [("cmd:%s:wire:relinquish-not-acked" % kind, "%s history %r: answered %r" % (name, ops[:i + 1], r))]
-                m.slots[op[1]] = None
+                m.slots[op[1] if op[1] is not None else 16] = None
             elif op[0] == "bad":
                 if op[1] < 0:
                     continue
@@ -483,9 +483,9 @@ def ops_nontrivial(ops):
             if len(occ) >= 2:
                 nt = True
         elif op[0] == "r":
-            if op[1] in occ:
+            if (op[1] if op[1] is not None else 16) in occ:
                 nt = True
-            occ.discard(op[1])
+            occ.discard(op[1] if op[1] is not None else 16)
         elif op[0] in ("bad", "slot0", "rd", "badval"):
             nt = True
     return nt
@@ -568,6 +568,12 @@ def run(spec, ctx):
             ctx.check(dict(k="wire", cls=name, ops=[alpha[i] for i in seq]))
         for b in bad[:3]:
             ctx.check(dict(k="wire", cls=name, ops=[alpha[1], b, alpha[7]]))
+        # a write and a relinquish without a priority field count as priority 16
+        for vi in (0, 1):
+            for pre in ([], [["w", 8, 2]], [["w", 16, 2]]):
+                ops_ = pre + [["w", None, vi], ["r", None], ["w", None, vi], ["r", 16], ["w", 16, vi], ["r", None]]
+                ctx.check(dict(k="wire", cls=name, ops=ops_))
+                ctx.check(dict(k="direct", cls=name, ops=ops_))
         for p_ in PRIOS:
             for a_ in ([], [alpha[1]], [alpha[5]]):
                 ctx.check(dict(k="wire", cls=name, ops=a_ + [["badval", p_, 0], ["w", 16, 1], ["badval", p_, 1], ["r", 16]]))
@@ -576,7 +582,7 @@ def run(spec, ctx):
         from hypothesis import strategies as st
         op = st.one_of(st.tuples(st.just("w"), st.one_of(st.integers(1, 16), st.none()), st.integers(0, 2)).map(list),
                        st.tuples(st.just("w"), st.integers(1, 16), st.integers(0, 2)).map(list),
-                       st.tuples(st.just("r"), st.integers(1, 16)).map(list),
+                       st.tuples(st.just("r"), st.one_of(st.integers(1, 16), st.integers(1, 16), st.none())).map(list),
                        st.tuples(st.just("bad"), st.sampled_from([0, 17, 255, -1, 100]), st.integers(0, 2)).map(list),
                        st.tuples(st.just("slot0"), st.integers(0, 2)).map(list))
         if kind == "random":
